@@ -6,6 +6,7 @@ import (
 	"os"
 	"path/filepath"
 	"sort"
+	"sync"
 	"time"
 
 	"worldcoin/gnark-mbu/prover"
@@ -16,6 +17,10 @@ import (
 	"verifmon/internal/proc"
 	"verifmon/internal/sysutil"
 )
+
+// fileReaderMu serialises calls of the file-based reader: concurrency is not in C15's quantifier, and
+// the monitor must not manufacture interleavings of its own.
+var fileReaderMu sync.Mutex
 
 // readOutcome runs a read under recover() and a watchdog.
 func readOutcome(read func() error) (outcome string, detail string) {
@@ -69,6 +74,16 @@ func runC15(o *cli.Opts, run *evid.Run) {
 				run.Violate(fmt.Sprintf("%s/%s/full", key, fmtName(raw)), "the complete file does not load: "+out+" "+det, nil)
 				continue
 			}
+			// … and through the file-based reader (a process that has loaded a complete file must still reject a prefix later)
+			fullPath := filepath.Join(o.Scratch, fmt.Sprintf("full-%d-%v.ps", i, raw))
+			os.WriteFile(fullPath, data, 0o644)
+			fileReaderMu.Lock()
+			out, det := readOutcome(func() error { _, e := prover.ReadSystemFromFile(fullPath); return e })
+			fileReaderMu.Unlock()
+			if out != "loaded" {
+				run.Violate(fmt.Sprintf("%s/%s/full-file", key, fmtName(raw)), "the complete file does not load through ReadSystemFromFile: "+out+" "+det, nil)
+			}
+			os.Remove(fullPath)
 			bounds := sectionBoundaries(ps, raw)
 			for off := 0; off < len(data); off++ {
 				ck := fmt.Sprintf("%s/%s/cut=%d", key, fmtName(raw), off)
@@ -86,7 +101,9 @@ func runC15(o *cli.Opts, run *evid.Run) {
 				if off%16 == 5 { // also through the file-based reader
 					path := filepath.Join(o.Scratch, fmt.Sprintf("cut-%d-%v-%d", i, raw, off))
 					os.WriteFile(path, data[:off], 0o644)
+					fileReaderMu.Lock()
 					out2, det2 := readOutcome(func() error { _, e := prover.ReadSystemFromFile(path); return e })
+					fileReaderMu.Unlock()
 					os.Remove(path)
 					if out2 != "error" {
 						run.Violate(ck+"/file", fmt.Sprintf("ReadSystemFromFile on a %s file cut at %d (%s): outcome %s %s", fmtName(raw), off, section, out2, det2), sample)
@@ -150,11 +167,11 @@ func runC15(o *cli.Opts, run *evid.Run) {
 				}
 			}
 			sort.Slice(list, func(i, j int) bool { return list[i] < list[j] })
-			cli.ForEach(len(list), 6, func(li int) {
+			cli.ForEach(len(list), 4, func(li int) {
 				off := list[li]
 				ck := fmt.Sprintf("%s/%s/cut=%d", key, fmtName(raw), off)
-				if !run.Wants(ck) {
-					return
+				if !run.Wants(ck) || run.Violations() > 40 {
+					return // enough witnesses; every accepted prefix of a real file costs a full 85 MB parse
 				}
 				var got prover.ProvingSystem
 				out, det := readOutcome(func() error { _, e := got.UnsafeReadFrom(bytes.NewReader(data[:off])); return e })
@@ -165,6 +182,28 @@ func runC15(o *cli.Opts, run *evid.Run) {
 				}
 				run.Case("real/"+fmtName(raw)+"/"+section, true, ck, out == "loaded", sample)
 			})
+			// the file-based reader: complete file first, then prefixes of it from the same path and from other paths
+			{
+				fp := filepath.Join(o.Scratch, "c15-real-"+mode+"-"+fmtName(raw)+".ps")
+				os.WriteFile(fp, data, 0o644)
+				if out, det := readOutcome(func() error { _, e := prover.ReadSystemFromFile(fp); return e }); out != "loaded" {
+					run.Violate(key+"/"+fmtName(raw)+"/full-file", "the complete real file does not load through ReadSystemFromFile: "+out+" "+det, nil)
+				}
+				for k, off := range []int64{bounds[2] / 2, bounds[3] + 5, int64(len(data)) - 1, 3} {
+					path := fp
+					if k%2 == 1 {
+						path = fp + ".cut"
+					}
+					os.WriteFile(path, data[:off], 0o644)
+					out, det := readOutcome(func() error { _, e := prover.ReadSystemFromFile(path); return e })
+					if out != "error" {
+						run.Violate(fmt.Sprintf("%s/%s/file-cut=%d", key, fmtName(raw), off), fmt.Sprintf("ReadSystemFromFile on a real %s file cut at %d after the complete file had been loaded: outcome %s %s", fmtName(raw), off, out, det), nil)
+					}
+					run.Case("real/file-reader-after-full-load", true, fmt.Sprint(key, raw, off), out == "loaded", map[string]any{"mode": mode, "format": fmtName(raw), "cut_at": off, "outcome": out})
+				}
+				os.Remove(fp)
+				os.Remove(fp + ".cut")
+			}
 			if raw && mode == "insertion" {
 				cliFull = filepath.Join(o.Scratch, "c15-full.ps")
 				os.WriteFile(cliFull, data, 0o644)
